@@ -293,7 +293,15 @@ pub fn run_c16<K: KeyLike>(t: &C16Case) -> CaseReport {
             return rep;
         }
         if let (Some(ia), Some(ib)) = (a.cb, b.cb) {
-            let (la, lb) = (take_cb_log(ia), take_cb_log(ib));
+            // zero-sized callbacks share one log: original's entries come first, then the clone's
+            let (la, lb) = if ia == ib {
+                let mut all = take_cb_log(ia);
+                let half = all.len() / 2;
+                let second = all.split_off(half);
+                (all, second)
+            } else {
+                (take_cb_log(ia), take_cb_log(ib))
+            };
             if la != lb {
                 rep.violation = Some(vio(p, step, kind, op, "lockstep-callbacks", format!("lock-step {op:?}: callback log of the original {:?}, of the clone {:?}", la, lb)));
                 return rep;
@@ -328,7 +336,7 @@ pub fn run_c16<K: KeyLike>(t: &C16Case) -> CaseReport {
         rep.violation = Some(vio(p, step, kind, &dummy, "audit-after-drop", format!("after dropping its sibling: {e}")));
         return rep;
     }
-    if let Some(id) = observed.cb {
+    if let Some(id) = observed.cb.filter(|id| *id != ZST_CB) {
         let l = take_cb_log(id);
         if !l.is_empty() {
             rep.violation = Some(vio(p, step, kind, &dummy, "callback-not-independent", format!("operations on the sibling invoked this cache's callback: {:?}", l)));
